@@ -3,4 +3,5 @@ import NdnProofs.Props.C12
 #print axioms Ndn.C12.check_true_sound
 #print axioms Ndn.C12.check_total
 #print axioms Ndn.C12.check_key_must_match
+#print axioms Ndn.C12.check_key_must_match_alone
 #print axioms Ndn.C12.check_ignores_implicit_digest
